@@ -63,6 +63,14 @@ def check_index(c):
         require(int(_convert_basis_element_to_index(v)) == k, "index-roundtrip", f"index of subspace_vector({k}) is {int(_convert_basis_element_to_index(v))}")
         if n <= 10:
             require(list(prod[k]) == space[k].long().tolist(), "space-row", f"row {k} differs from itertools.product order")
+    if n <= 8:
+        # a caller may use the returned space destructively (e.g. as overwritten chain start states); later calls - from this or
+        # another model - must still return the enumeration
+        space.mul_(2).sub_(1)
+        again = state.generate_hilbert_space(n)
+        require(torch.equal(again, want), "space-shared-between-calls", f"generate_hilbert_space({n}) returned a tensor affected by an in-place change a caller made to an earlier result")
+        from qucumber.nn_states import PositiveWaveFunction as _P
+        require(torch.equal(_P(2, 1, gpu=False).generate_hilbert_space(n), want), "space-shared-between-calls", "another model's generate_hilbert_space is affected by a caller's in-place change")
     if n == 2:
         # defaults: size=None means the model's own num_visible
         require(torch.equal(state.generate_hilbert_space(), state.generate_hilbert_space(2)) and state.subspace_vector(2).tolist() == [1, 0], "defaults", "size default is not num_visible")
@@ -162,7 +170,7 @@ def files(draw, tier):
             if pat == "none_Z" and set(b) == {"Z"}:
                 b = "X" + b[1:]
             bases.append(b)
-    D = 2 ** min(n, 4)
+    D = draw(st.sampled_from([2, 2, 4, 8, 16]))     # target dimension (1..4 qubits); loading does not relate it to the samples' n
     fl = st.floats(-2, 2, allow_nan=False, width=64)
     return {"N": N, "n": n, "samples": draw(st.lists(st.integers(0, 2 ** n - 1), min_size=N, max_size=N)), "bases": bases,
             "psi": {"re": draw(st.lists(fl, min_size=D, max_size=D)), "im": draw(st.lists(fl, min_size=D, max_size=D))},
